@@ -359,6 +359,9 @@ func ruleAggVerbatim(c *Ctx) {
 			usesSize, usesLen := false, false
 			for _, side := range []ssa.Value{bo.X, bo.Y} {
 				walkDeps(side, func(x ssa.Value) bool {
+					if _, isPhi := x.(*ssa.Phi); isPhi {
+						return false // only this iteration's values: do not follow loop-carried dependences
+					}
 					if origin(x) == sizeV || x == sizeV {
 						usesSize = true
 					}
